@@ -1307,6 +1307,41 @@ func ruleR16_7(r *Run) {
 				appendCalls = append(appendCalls, c)
 			}
 		}
+		// appends made from a callback closure count at the call that receives the closure
+		for _, cl := range closures(f) {
+			has := false
+			for _, c := range calls(cl) {
+				if cal := c.Common().StaticCallee(); cal != nil && inRepo(cal) && len(cal.Blocks) > 0 && appends(cal) {
+					has = true
+				}
+			}
+			if !has {
+				continue
+			}
+			for _, b := range f.Blocks {
+				for _, in := range b.Instrs {
+					if mc, ok := in.(*ssa.MakeClosure); ok && mc.Fn == ssa.Value(cl) {
+						var walk func(v ssa.Value, d int)
+						walk = func(v ssa.Value, d int) {
+							if d > 3 || v.Referrers() == nil {
+								return
+							}
+							for _, ref := range *v.Referrers() {
+								switch x := ref.(type) {
+								case ssa.CallInstruction:
+									appendCalls = append(appendCalls, x)
+								case *ssa.ChangeType:
+									walk(x, d+1)
+								case *ssa.MakeInterface:
+									walk(x, d+1)
+								}
+							}
+						}
+						walk(mc, 0)
+					}
+				}
+			}
+		}
 		if len(appendCalls) == 0 {
 			continue
 		}
@@ -1327,4 +1362,64 @@ func ruleR16_7(r *Run) {
 		r.check(p == nil, fname(f)+":ids-sorted-after-bulk-append", "after filling the id list by plain appends every success exit has sorted it",
 			"a database whose id list is filled by plain appends is handed out without sorting the list: stored key order is lexicographic on the decimal string, so range reads (which binary-search the list) return wrong keys after a restart", w.fpos(f), w.renderPath(p)...)
 	}
+}
+
+func init() {
+	register(ruleDef{ID: "R16.8", Prop: "C16", Tier: "quick", Floor: 1,
+		Title: "bookkeeping reads the entry before it is deleted: in the in-memory database no map entry is looked up after delete(map, key) of the same key on the same path (field counts are decremented from the annotation being removed, which must still be there)",
+		Fn:    ruleR16_8})
+}
+
+func ruleR16_8(r *Run) {
+	w := r.W
+	n := 0
+	for _, f := range w.RepoFuncs {
+		if relPkg(pkgPathOf(f)) != "datatype/neuronjson" || len(f.Blocks) == 0 || strings.HasSuffix(w.fposFile(f), "_test.go") {
+			continue
+		}
+		k := 0
+		for _, c := range calls(f) {
+			bi, ok := c.Common().Value.(*ssa.Builtin)
+			if !ok || bi.Name() != "delete" {
+				continue
+			}
+			m, key := c.Common().Args[0], c.Common().Args[1]
+			mk := placeKey(m)
+			if !strings.Contains(mk, ".data") && !strings.Contains(mk, ".fields") && !strings.Contains(mk, ".ids") {
+				continue // only the in-memory database's own maps
+			}
+			n++
+			k++
+			bad := ""
+			var wit []ssa.Instruction
+			for _, b := range f.Blocks {
+				for _, in := range b.Instrs {
+					var lkMap, lkKey ssa.Value
+					switch x := in.(type) {
+					case *ssa.Lookup:
+						lkMap, lkKey = x.X, x.Index
+					case *ssa.Range:
+						// ranging over m[k] read earlier is fine; ranging over a fresh lookup is caught by the Lookup
+						continue
+					default:
+						continue
+					}
+					if placeKey(lkMap) != mk || stripConv(lkKey) != stripConv(key) {
+						continue
+					}
+					isUpd := func(i2 ssa.Instruction) bool {
+						mu, ok := i2.(*ssa.MapUpdate)
+						return ok && placeKey(mu.Map) == mk
+					}
+					if p := findPath(f, c, isUpd, func(i2 ssa.Instruction) bool { return i2 == in }, nil); p != nil {
+						bad = w.pos(in.Pos())
+						wit = p
+					}
+				}
+			}
+			r.check(bad == "", fmt.Sprintf("%s:delete#%d:no-lookup-after-delete", fname(f), k), "the deleted entry is not looked up again on any path",
+				"a map entry of the in-memory database is looked up after it was deleted on the same path: the lookup yields the zero value, so the bookkeeping derived from the removed annotation (per-field counts) is silently skipped and the in-memory answers drift from the stored ones", firstNonEmpty(bad, w.pos(c.Pos())), w.renderPath(wit)...)
+		}
+	}
+	r.check(n >= 1, "neuronjson:memdb-deletes", fmt.Sprintf("%d deletions from the in-memory database's maps examined", n), "no deletion found: rule needs review", "-")
 }
